@@ -118,6 +118,9 @@ def mon_C03(sc, trace, probes, info):
             return 'ActivityLeak'
         if isinstance(x, (TypeError, AttributeError, KeyError, IndexError, ZeroDivisionError, NameError)):
             return 'internal error %s: %s' % (type(x).__name__, x)
+        if isinstance(x, ValueError) and not str(x).startswith(('cannot provide ', 'period must not be negative')):
+            # the two ValueErrors of the public API (first(count > n), negative period) are the program's own
+            return 'internal error %s: %s' % (type(x).__name__, x)
         return None
     if e is not None and fin[0] == 91:
         why = internal(e)
@@ -247,10 +250,14 @@ def mon_C04(sc, trace, probes, info):
                 if s in exited:
                     out.append(('task %r started after its scope %r was left' % (p[1], s), None))
                     break
-    refused = [p for p in by(probes, 'do_refused')]
-    for p in refused:
-        if p[2] in started:
-            out.append(('payload %r refused by an ended scope ran anyway' % (p[2],), None))
+    # task names are static: a `do` statement inside a loop creates several instances of one name, some accepted and
+    # some refused; a refused payload that ran shows as more starts than accepted spawns of that name
+    refused = {p[2] for p in by(probes, 'do_refused')}
+    for name in refused:
+        accepted = sum(1 for p in by(probes, 'do') if p[2] == name)
+        starts = sum(1 for p in by(probes, 'task_start') if p[1] == name)
+        if starts > accepted:
+            out.append(('payload %r refused by an ended scope ran anyway' % (name,), None))
     return out
 
 
@@ -336,6 +343,24 @@ def mon_C07(sc, trace, probes, info):
             # interrupted by its own notification at another time than the trigger time
             if not (trig is not None and t1 > trig):
                 out.append(('until %r was interrupted at %r but its notification fires at %r' % (name, t1, trig), None))
+    # a block whose notification fired but which was never left at all (its owner sleeps forever)
+    exited = {p[1] for p in by(probes, 'scope_exit')}
+    final = info.get('final') or [None]
+    tend = info.get('last_time')
+    for name, p in enters.items():
+        if name in exited:
+            continue
+        w, t0 = p[3], p[4]
+        trig = expected_resume(w, t0)
+        if trig == 'n/a':
+            trig = true_at.get(name)
+        if trig is None or trig == 'n/a':
+            continue
+        if final[0] == 90 or (final[0] == 91 and tend is not None and tend > trig):
+            k = kinds.get(name)
+            finding = 'D4b' if (k is not None and k[2] and k[3] is False) else None
+            out.append(('until %r (%r) entered at %r was never left although its notification fired at %r'
+                        % (name, w, t0, trig), finding))
     out.extend(mon_till(sc, trace, probes, info))
     return out
 
@@ -573,5 +598,22 @@ def mon_C12(sc, trace, probes, info):
     return out
 
 
-MONITORS = {'till': mon_till, 'C12': mon_C12, 'C16': mon_C16, 'C02': mon_C02, 'C01': mon_C01, 'C03': mon_C03, 'C04': mon_C04, 'C05': mon_C05, 'C07': mon_C07, 'C08': mon_C08,
+# ------------------------------------------------------------------------------------------- C11 (machine families)
+def mon_C11(sc, trace, probes, info):
+    """isolation on scenario programs: whatever a consumer receives from channel c was put into channel c (accepted,
+    before).  (At-most-once per consumer is not checked here: one activity may hold several live subscriptions -
+    nested `async for` over one channel - and then legitimately sees a message once per subscription.)"""
+    out = []
+    puts = set()
+    for p in probes:
+        if p[0] == 'chan_put' and not p[5]:
+            puts.add((p[1], p[2]))
+        elif p[0] == 'chan_got':
+            _, x, v, actor, now = p
+            if (x, v) not in puts:
+                out.append(('%r received %r from channel %r into which it was never put' % (actor, v, x), None))
+    return out
+
+
+MONITORS = {'C11': mon_C11, 'till': mon_till, 'C12': mon_C12, 'C16': mon_C16, 'C02': mon_C02, 'C01': mon_C01, 'C03': mon_C03, 'C04': mon_C04, 'C05': mon_C05, 'C07': mon_C07, 'C08': mon_C08,
             'C09': mon_C09, 'C10': mon_C10}
